@@ -31,6 +31,9 @@ type c03Seg struct {
 	// Shout: the action is a call of shout(), a Go function that wraps Runtime.Writer (an exported field, as exec()
 	// itself uses it) in a writer that turns a-z into A-Z: from here on everything the template emits, text included
 	Shout bool `json:"shout,omitempty"`
+	// Raw: the marker is written as a raw string literal that ends in a backslash (`M1\`): the literal ends at its
+	// closing back quote, and what follows the action is text
+	Raw bool `json:"raw,omitempty"`
 }
 
 type c03Upper struct{ w io.Writer }
@@ -224,6 +227,10 @@ func genC03(t *rapid.T) c03Case {
 			if c.Header == "" && rapid.IntRange(0, 11).Draw(t, "shout") == 0 {
 				s.Shout, s.Number, s.Text = true, false, ""
 			}
+			if !s.Shout && !s.Number && !strings.Contains(c.Delims.L()+c.Delims.R()+c.Delims.CL()+c.Delims.CR(), "`") && rapid.IntRange(0, 7).Draw(t, "rawLiteral") == 0 {
+				s.Raw = true
+				s.Text += "\\"
+			}
 			s.TrimL = rapid.Bool().Draw(t, "triml")
 			s.TrimR = rapid.Bool().Draw(t, "trimr")
 			s.PadL = genWS(t, "padl", 0, 2)
@@ -349,6 +356,8 @@ func (c c03Case) printSeg(s c03Seg) string {
 	b.WriteString(s.PadL)
 	if s.Shout {
 		b.WriteString("shout()")
+	} else if s.Raw {
+		b.WriteString("`" + s.Text + "`")
 	} else if s.Number {
 		b.WriteString(s.Text)
 	} else {
